@@ -350,7 +350,23 @@ class Eff(object):
 
     def guards(self):
         """canonical atoms (expanded text, polarity) known where the call is written."""
-        return list(self.outer) + _guards_at(self.x, self.inner)
+        return list(self.outer) + _guards_at(self.x, self.inner) + _expr_guards(self.x, self.inner, self.raw)
+
+
+def _expr_guards(x, node, call):
+    """atoms from the conditional expression / short-circuit tests under which `call` is evaluated inside its statement"""
+    from .astutil import atoms_of
+    from .events import _walk_expr
+    out = []
+    for root in node.expr_roots():
+        evs = []
+        _walk_expr(root, evs)
+        for ev in evs:
+            if ev.get("ast") is call and ev.get("kind") == "call":
+                for test, pol in ev.get("guards") or ():
+                    out += atoms_of(x.expand(test, node), pol)
+                return out
+    return out
 
 
 def _guards_at(x, node):
@@ -387,7 +403,7 @@ def effect_calls(prog, f, pred, depth=3, _x=None, _at=None, _seen=(), _outer=(),
                     sub = _bind(tgt, c, x, node, has_recv=not is_static)
                     hx = Expander(tgt, subst=sub, inline=prog)
                     out += effect_calls(prog, tgt, pred, depth - 1, hx, _at or node, tuple(_seen) + (f.qualname,),
-                                        tuple(_outer) + tuple(_guards_at(x, node)), expanded)
+                                        tuple(_outer) + tuple(_guards_at(x, node)) + tuple(_expr_guards(x, node, c)), expanded)
     return out
 
 
@@ -410,3 +426,75 @@ def ordered_iterations(fnode, var):
             elif any(isinstance(y, ast.Name) and y.id == var for y in ast.walk(it)):
                 bad.append(n)
     return ok, bad
+
+
+# ----------------------------------------------------------------------------------------------- canonical expression form
+def canon_expr(prog, f, e):
+    """copy of the (expanded) expression e in a spelling independent form:
+      * references to imported external objects by their dotted name (osp.join, join -> os.path.join)
+      * os.path.split(p)[0] / [1] -> os.path.dirname(p) / os.path.basename(p)
+      * text built by an f-string, `const % args`, const.format(args) or a + chain with a literal -> TEMPLATE(part, ...)
+    Only for comparing shapes: TEMPLATE equates str(x) formatting with + concatenation, which agree for text operands."""
+    from .model import canonical_name
+    from .astutil import template_parts
+
+    def ext_name(n):
+        try:
+            cn = canonical_name(prog, f, n)
+        except Exception:
+            return None
+        if cn and cn != ast.unparse(n) and all(p0.isidentifier() for p0 in cn.split(".")):
+            return cn
+        return None
+
+    class T(ast.NodeTransformer):
+        def visit_Attribute(self, n):
+            cn = ext_name(n) if isinstance(n.ctx, ast.Load) else None
+            if cn:
+                return ast.copy_location(ast.parse(cn, mode="eval").body, n)
+            return self.generic_visit(n)
+
+        def visit_Name(self, n):
+            cn = ext_name(n) if isinstance(n.ctx, ast.Load) else None
+            if cn and "." in cn:
+                return ast.copy_location(ast.parse(cn, mode="eval").body, n)
+            return n
+
+        def visit_Subscript(self, n):
+            n = self.generic_visit(n)
+            v = n.value
+            if isinstance(v, ast.Call) and ast.unparse(v.func) == "os.path.split" and len(v.args) == 1 and isinstance(n.slice, ast.Constant) \
+                    and n.slice.value in (0, 1):
+                fn = "os.path.dirname" if n.slice.value == 0 else "os.path.basename"
+                return ast.copy_location(ast.Call(func=ast.parse(fn, mode="eval").body, args=v.args, keywords=[]), n)
+            return n
+
+        def _template(self, n):
+            parts = template_parts(None, n)
+            if not parts or not any(k == "lit" for k, _ in parts) or not any(k == "hole" for k, _ in parts):
+                return None
+            args = [ast.Constant(value=v) if k == "lit" else self.visit(v) for k, v in parts]
+            return ast.copy_location(ast.Call(func=ast.Name(id="TEMPLATE", ctx=ast.Load()), args=args, keywords=[]), n)
+
+        def visit_JoinedStr(self, n):
+            return self._template(n) or self.generic_visit(n)
+
+        def visit_BinOp(self, n):
+            if isinstance(n.op, (ast.Add, ast.Mod)):
+                t = self._template(n)
+                if t is not None:
+                    return t
+            return self.generic_visit(n)
+
+        def visit_Call(self, n):
+            if isinstance(n.func, ast.Attribute) and n.func.attr == "format" and isinstance(n.func.value, ast.Constant):
+                t = self._template(n)
+                if t is not None:
+                    return t
+            return self.generic_visit(n)
+    out = T().visit(copy.deepcopy(e))
+    return ast.fix_missing_locations(out)
+
+
+def canon_text(prog, f, e):
+    return ast.unparse(canon_expr(prog, f, e))
